@@ -30,6 +30,30 @@
 (*   long lexemes for whatever looks at plain scalars after it             *)
 (*   P1 = %41   P2a = %C3   P2b = %A9   Pbad = %FF   (URI escapes)         *)
 (*                                                                         *)
+(* LONG RUNS.  A run symbol R<x> (Rsp Rtab Rlf Rcr Rcrlf Rnel Rls Rps Rw   *)
+(* Ru Rhash Rdash Rdot R0 R1) chosen by the environment stands for more    *)
+(* than BulkW (1200 / 5000; digits 4400) repetitions of the character      *)
+(* class x.  Extend writes it as  x^a  B<x>  x^b : a copies of x, the BULK *)
+(* symbol B<x> (one symbol, width BulkW, class x) and b more copies.  The  *)
+(* scanner consumes characters in two ways: in a loop over a class (while  *)
+(* peek() in set: forward()) - such a loop crosses a bulk as a whole, and  *)
+(* the result is the one of crossing W characters one by one because every *)
+(* iteration sees the same class ahead (the b copies behind the bulk take  *)
+(* the look-ahead of its last character: CR LF) - or by a single forward() *)
+(* after a test of one character.  A single forward() that meets a bulk    *)
+(* would end inside the run, which a state of this model cannot express:   *)
+(* it is a TLC assertion failure (Fwd1), so a complete TLC run proves that *)
+(* within the explored bounds the a copies in front always absorb the      *)
+(* single forwards (a = 3, 8 for digits: an escape reads 8 hex digits).    *)
+(* A bulk of line breaks advances the line by its width; its normalised    *)
+(* value is the item NLs(q) (W line feeds).  At most one run per input.    *)
+(* Unit runs U<name> (Udash = "- " x n, Ucomma, Uopen = "[" x n, Udoc =    *)
+(* "---\n" x n, ...) repeat a TOKEN-producing unit; the scanner's state is *)
+(* not periodic over them (indent stack, flow level, 1024 rule), so the    *)
+(* model makes no prediction for an input that contains one (outcome       *)
+(* "unmodelled"): the specification is the generator of these inputs, H    *)
+(* (Trace_Outcome.tla) judges what the implementation does with them.      *)
+(*                                                                         *)
 (* POSITIONS.  rd = [p, i, l, c, wk]: p symbols consumed, i/l/c the        *)
 (* reader's index / line / column (in characters: a macro advances i and   *)
 (* c by its width), wk the work counter (one unit per forward() and per    *)
@@ -69,6 +93,42 @@ CONSTANTS Focuses,      \* names of the focus configurations (rows of FocusTable
 (*   file                 inputs come from a file (LoadPipe.tla)           *)
 (***************************************************************************)
 NumMacro == {"NX", "NB", "NO", "ND", "NU"}     \* long numbers: 0x / 0b / 0o + 40 digits, 40 decimal digits, 1_1_1_...
+(***************************************************************************)
+(* long runs: run symbol -> [b: bulk symbol, x: the repeated unit (base    *)
+(* symbols), a / z: copies written in front of / behind the bulk]          *)
+(***************************************************************************)
+RunTable == [
+  Rsp   |-> [b |-> "Bsp",   x |-> <<"sp">>,  a |-> 3, z |-> 1],
+  Rtab  |-> [b |-> "Btab",  x |-> <<"tab">>, a |-> 3, z |-> 1],
+  Rlf   |-> [b |-> "Blf",   x |-> <<"lf">>,  a |-> 3, z |-> 1],
+  Rcr   |-> [b |-> "Bcr",   x |-> <<"cr">>,  a |-> 3, z |-> 1],
+  Rcrlf |-> [b |-> "Bcrlf", x |-> <<"cr", "lf">>, a |-> 2, z |-> 1],
+  Rnel  |-> [b |-> "Bnel",  x |-> <<"nel">>, a |-> 3, z |-> 1],
+  Rls   |-> [b |-> "Bls",   x |-> <<"ls">>,  a |-> 3, z |-> 1],
+  Rps   |-> [b |-> "Bps",   x |-> <<"ps">>,  a |-> 3, z |-> 1],
+  Rw    |-> [b |-> "Bw",    x |-> <<"w">>,   a |-> 3, z |-> 1],
+  Ru    |-> [b |-> "Bu",    x |-> <<"u">>,   a |-> 3, z |-> 1],
+  Rhash |-> [b |-> "Bhash", x |-> <<"#">>,   a |-> 3, z |-> 1],
+  Rdash |-> [b |-> "Bdash", x |-> <<"-">>,   a |-> 3, z |-> 1],
+  Rdot  |-> [b |-> "Bdot",  x |-> <<".">>,   a |-> 3, z |-> 1],
+  R0    |-> [b |-> "B0",    x |-> <<"0">>,   a |-> 8, z |-> 1],
+  R1    |-> [b |-> "B1",    x |-> <<"1">>,   a |-> 8, z |-> 1]]
+RunSyms  == DOMAIN RunTable
+BulkSyms == {RunTable[s].b : s \in RunSyms}
+\* the class a bulk belongs to: what peek() sees anywhere inside it (Bcrlf: a CR, followed by LF CR LF ... and a CR LF copy)
+BulkBase(s) == CASE s = "Bsp" -> "sp" [] s = "Btab" -> "tab" [] s = "Blf" -> "lf" [] s \in {"Bcr", "Bcrlf"} -> "cr"
+                 [] s = "Bnel" -> "nel" [] s = "Bls" -> "ls" [] s = "Bps" -> "ps" [] s = "Bw" -> "w" [] s = "Bu" -> "u"
+                 [] s = "Bhash" -> "#" [] s = "Bdash" -> "-" [] s = "Bdot" -> "." [] s = "B0" -> "0" [] s = "B1" -> "1"
+Cls(s) == IF s \in BulkSyms THEN BulkBase(s) ELSE s
+BulkW == IF Thorough THEN 5000 ELSE 1200                      \* characters in a bulk (beyond the interpreter's recursion limit)
+DigitBulkW == 4400                                            \* beyond CPython's limit of 4300 digits for int()
+\* repeated token-producing units (no prediction by the model; see the header)
+UnitSyms == {"Udash", "Uq", "Ucolon", "Ucomma", "Uwcomma", "Uopen", "Ubrace", "Uclose", "Uflowq", "Uflowcolon", "Udoc", "Uend",
+             "Uydir", "Udir", "Uanchor", "Utag", "Ualias", "Uentry", "Upair", "Ufpair", "Ucmt", "Usq", "Udq", "Uesc", "Ulit", "Uqq", "Ubsbs",
+             "Uempty", "Uqempty"}
+RECURSIVE Rep(_, _)
+Rep(x, k) == IF k = 0 THEN <<>> ELSE x \o Rep(x, k - 1)
+Expand(s) == IF s \in RunSyms THEN LET t == RunTable[s] IN Rep(t.x, t.a) \o <<t.b>> \o Rep(t.x, t.z) ELSE <<s>>
 Structural == {"w", "sp", "lf", "-", "?", ":", ",", "[", "]", "{", "}", "#"}
 FocusTable == [
   struct   |-> [p |-> <<>>, n |-> 4, m |-> 5, a |-> Structural],
@@ -129,6 +189,39 @@ FocusTable == [
   pbom     |-> [p |-> <<"bom">>, n |-> 3, m |-> 4, a |-> {"w", "sp", "lf", "-", ":", "#", "bom"}],
   pnested  |-> [p |-> <<"-", "sp", "-", "sp", "|">>, n |-> 4, m |-> 6, a |-> {"w", "sp", "lf", "1", "2", "-"}],
   pindic   |-> [p |-> <<>>, n |-> 3, m |-> 3, a |-> {"&", "*", "!", "|", ">", "'", "dq", "%", "@", "bt", "w", "lf", ".", ":", "sp", "-"}],
+  \* long runs at every position of short strings, in every context (n / m count the environment's choices, not symbols)
+  rtop     |-> [p |-> <<>>, n |-> 3, m |-> 4,
+                a |-> {"w", "sp", "lf", ":", "-", "#", "[", ","} \cup {"Rsp", "Rtab", "Rlf", "Rcr", "Rcrlf", "Rnel", "Rls", "Rps", "Rw", "Ru",
+                       "Rhash", "Rdash", "Rdot", "R0", "R1"}],
+  rflow    |-> [p |-> <<"[", "w", ",">>, n |-> 3, m |-> 4,
+                a |-> {"w", "sp", ",", "]", ":", "lf"} \cup {"Rsp", "Rtab", "Rlf", "Rcrlf", "Rw", "Rhash", "R0"}],
+  rvalue   |-> [p |-> <<"w", ":">>, n |-> 3, m |-> 4, a |-> {"w", "sp", "lf", "#", ":", "-"} \cup {"Rsp", "Rtab", "Rlf", "Rcr", "Rw", "Rhash"}],
+  rcomment |-> [p |-> <<"w", ":", "sp", "w">>, n |-> 2, m |-> 3, a |-> {"w", "sp", "lf", "#"} \cup {"Rsp", "Rtab", "Rhash", "Rw", "Rlf"}],
+  rdq      |-> [p |-> <<"dq">>, n |-> 3, m |-> 4,
+                a |-> {"w", "sp", "lf", "dq", "bs"} \cup {"Rsp", "Rtab", "Rlf", "Rcr", "Rcrlf", "Rls", "Rw", "Ru", "R0"}],
+  rsq      |-> [p |-> <<"'">>, n |-> 3, m |-> 4, a |-> {"w", "sp", "lf", "'"} \cup {"Rsp", "Rtab", "Rlf", "Rnel", "Rw"}],
+  rlit     |-> [p |-> <<"|">>, n |-> 3, m |-> 4,
+                a |-> {"w", "sp", "lf", "1", "-", "#"} \cup {"Rsp", "Rtab", "Rlf", "Rcr", "Rw", "R0", "R1", "Rhash", "Rdash"}],
+  rlitbody |-> [p |-> <<"|", "lf", "sp">>, n |-> 3, m |-> 4, a |-> {"w", "sp", "lf"} \cup {"Rsp", "Rtab", "Rlf", "Rcrlf", "Rps", "Rw", "Ru"}],
+  rfold    |-> [p |-> <<">", "lf">>, n |-> 3, m |-> 4, a |-> {"w", "sp", "lf"} \cup {"Rsp", "Rtab", "Rlf", "Rnel", "Rw"}],
+  ryaml    |-> [p |-> <<"%", "YAML", "sp">>, n |-> 3, m |-> 4,
+                a |-> {"1", "0", ".", "sp", "lf", "#"} \cup {"R0", "R1", "Rsp", "Rtab", "Rhash", "Rlf"}],
+  ryaml2   |-> [p |-> <<"%", "YAML", "sp", "1", ".">>, n |-> 3, m |-> 4, a |-> {"1", "0", "sp", "lf"} \cup {"R0", "R1"}],
+  rdir     |-> [p |-> <<"%">>, n |-> 3, m |-> 4, a |-> {"w", "sp", "lf", "TAG", "!"} \cup {"Rw", "Rsp", "Rtab", "R0"}],
+  rprops   |-> [p |-> <<>>, n |-> 3, m |-> 4, a |-> {"&", "*", "!", "<", "w", "sp", ":"} \cup {"Rw", "R0", "Rsp", "Rtab", "Rdash"}],
+  rescape  |-> [p |-> <<"dq", "bs">>, n |-> 2, m |-> 3, a |-> {"xc", "uc", "Uc", "0", "dq", "w"} \cup {"R0", "R1", "Rsp", "Rtab", "Rlf"}],
+  runits   |-> [p |-> <<>>, n |-> 2, m |-> 3, a |-> {"w", "sp", "lf", ":", "["} \cup UnitSyms],
+  runitsf  |-> [p |-> <<"[", "w", ",">>, n |-> 2, m |-> 2,
+                a |-> {"w", "]"} \cup {"Ucomma", "Uwcomma", "Uopen", "Ubrace", "Uflowq", "Uflowcolon", "Ufpair", "Uanchor", "Utag", "Usq", "Udq"}],
+  runitsb  |-> [p |-> <<"w", ":">>, n |-> 2, m |-> 2,
+                a |-> {"sp", "lf", "w"} \cup {"Udash", "Uq", "Ucolon", "Uentry", "Upair", "Ucmt", "Udoc", "Uend", "Uanchor", "Utag", "Ulit", "Uempty", "Uqempty"}],
+  runitsq  |-> [p |-> <<"'">>, n |-> 2, m |-> 3, a |-> {"w", "'", "sp"} \cup {"Uqq", "Usq", "Udq", "Ucmt", "Udoc"}],
+  runitsd  |-> [p |-> <<"dq">>, n |-> 2, m |-> 3, a |-> {"w", "dq", "sp"} \cup {"Uesc", "Ubsbs", "Udq", "Usq", "Uend"}],
+  \* a flow level that is left and entered again on the same line (a simple-key candidate of the closed collection must be gone)
+  reflow1  |-> [p |-> <<"[", "w", "]", ":", "sp", "[">>, n |-> 3, m |-> 5, a |-> {":", "sp", "w", "]", "[", ",", "?"}],
+  reflow2  |-> [p |-> <<"{", "w", "}", ":", "sp", "{">>, n |-> 3, m |-> 5, a |-> {":", "sp", "w", "}", "{", ","}],
+  reflow3  |-> [p |-> <<"[", "[", "w", "]", ",", "[">>, n |-> 3, m |-> 5, a |-> {":", "sp", "w", "]", "[", ","}],
+  drun     |-> [p |-> <<>>, n |-> 3, m |-> 3, a |-> {"w", "sp", "lf", ":", "dq"} \cup {"Rsp", "Rtab", "Rlf", "Rw"}],
   file     |-> [p |-> <<>>, n |-> 0, m |-> 0, a |-> {}]]
 
 \* a run of 4301 digits is only followed where the scanner reads a number as a whole, a long number only where it is a
@@ -169,12 +262,16 @@ EscMacro == {"X2", "U4", "U4s", "U8", "U8s", "U8big", "U8huge"}
 W(s) == CASE s = "X2" -> 3 [] s \in {"U4", "U4s"} -> 5 [] s \in {"U8", "U8s", "U8big", "U8huge"} -> 9
           [] s = "YAML" -> 4 [] s = "TAG" -> 3 [] s \in PMacro -> 3 [] s = "L" -> MaxKey [] s = "DBIG" -> 4301
           [] s \in {"NX", "NB", "NO"} -> 42 [] s \in {"ND", "NU"} -> 40
+          [] s \in {"B0", "B1"} -> DigitBulkW [] s \in BulkSyms \ {"B0", "B1"} -> BulkW
           [] OTHER -> 1
+\* line breaks in a symbol that ends a line (Bcrlf: BulkW characters are BulkW / 2 breaks)
+Lines(s) == IF s = "Bcrlf" THEN BulkW \div 2 ELSE IF s \in BulkSyms THEN BulkW ELSE 1
 C(s) == IF s \in PMacro THEN "%" ELSE s                       \* first character, for comparisons with an indicator
 
 
 NLc == -1
 SPc == -2
+NLs(q) == 40000 + q             \* the normalised value of the bulk of line breaks that is symbol q: Lines(inp[q]) line feeds
 Esc(q) == 10000 + q
 Uri(q) == 20000 + q
 Hex2(q) == 30000 + q            \* the two hex digits of URI-escape macro q, read as ordinary characters
@@ -187,21 +284,28 @@ Restrict(f, D) == [x \in D |-> f[x]]
 (***************************************************************************)
 (* reader.py: peek / prefix / forward / get_mark                           *)
 (***************************************************************************)
-Sym(q)  == IF q < Len(inp) THEN inp[q + 1]
+\* Sym / SymS give the CLASS of what stands at symbol position q (a bulk looks like its characters); Raw gives the symbol
+Sym(q)  == IF q < Len(inp) THEN Cls(inp[q + 1])
            ELSE IF q = Len(inp) THEN "Z"
            ELSE Assert(FALSE, <<"IndexError: peek beyond the NUL sentinel", q, inp>>)
-SymS(q) == IF q < Len(inp) THEN inp[q + 1] ELSE "Z"           \* slice semantics of prefix(): never fails
+SymS(q) == IF q < Len(inp) THEN Cls(inp[q + 1]) ELSE "Z"      \* slice semantics of prefix(): never fails
+Raw(q)  == IF q < Len(inp) THEN inp[q + 1] ELSE "Z"
 
 Mk(r) == [i |-> r.i, l |-> r.l, c |-> r.c]
 NoMark == [i |-> -1, l |-> -1, c |-> -1]
 
+\* Fwd: forward() inside a loop over a class of characters (crosses a bulk as a whole: W forwards);
+\* Fwd1: a single forward() - meeting a bulk it would stop inside the run, which this model does not represent
 Fwd(r) == LET s == Sym(r.p)
+              x == Raw(r.p)
               brk == s \in {"lf", "nel", "ls", "ps"} \/ (s = "cr" /\ SymS(r.p + 1) # "lf")
           IN  IF s = "Z" THEN Assert(FALSE, <<"forward() across the NUL sentinel", r, inp>>)
-              ELSE [p |-> r.p + 1, i |-> r.i + W(s), l |-> IF brk THEN r.l + 1 ELSE r.l,
-                    c |-> IF brk THEN 0 ELSE IF s = "bom" THEN r.c ELSE r.c + W(s), wk |-> r.wk + 1]
-RECURSIVE FwdTo(_, _), Skip(_, _), SkipUntil(_, _), RunEnd(_, _), RunEndNot(_, _)
-FwdTo(r, q)       == IF r.p < q THEN FwdTo(Fwd(r), q) ELSE r
+              ELSE [p |-> r.p + 1, i |-> r.i + W(x), l |-> IF brk THEN r.l + Lines(x) ELSE r.l,
+                    c |-> IF brk THEN 0 ELSE IF s = "bom" THEN r.c ELSE r.c + W(x), wk |-> r.wk + 1]
+Fwd1(r) == IF Raw(r.p) \in BulkSyms THEN Assert(FALSE, <<"a single forward() meets a bulk: not representable", r, inp>>) ELSE Fwd(r)
+RECURSIVE FwdTo(_, _), FwdN(_, _), Skip(_, _), SkipUntil(_, _), RunEnd(_, _), RunEndNot(_, _)
+FwdTo(r, q)       == IF r.p < q THEN FwdTo(Fwd(r), q) ELSE r                        \* forward(length) after a look-ahead loop
+FwdN(r, q)        == IF r.p < q THEN FwdN(Fwd1(r), q) ELSE r                        \* forward(n) for a fixed n
 Skip(r, set)      == IF Sym(r.p) \in set THEN Skip(Fwd(r), set) ELSE r            \* while self.peek() in set: forward()
 SkipUntil(r, set) == IF Sym(r.p) \notin set THEN SkipUntil(Fwd(r), set) ELSE r
 RunEnd(q, set)    == IF Sym(q) \in set THEN RunEnd(q + 1, set) ELSE q             \* while self.peek(length) in set
@@ -209,11 +313,15 @@ RunEndNot(q, set) == IF Sym(q) \notin set THEN RunEndNot(q + 1, set) ELSE q
 Copies(q1, q2)    == [k \in 1 .. (q2 - q1) |-> q1 + k]                            \* prefix(): symbols q1 .. q2-1 (0-based)
 
 \* scan_line_break
+\* LineBreak: called in a loop over line breaks (a bulk: all of its breaks); LineBreak1: called once
 LineBreak(r) == LET s == Sym(r.p) IN
   IF s \in {"cr", "lf", "nel"}
-  THEN [rd |-> IF s = "cr" /\ SymS(r.p + 1) = "lf" THEN Fwd(Fwd(r)) ELSE Fwd(r), v |-> <<NLc>>]
+  THEN [rd |-> IF s = "cr" /\ SymS(r.p + 1) = "lf" THEN Fwd(Fwd(r)) ELSE Fwd(r),
+        v |-> IF Raw(r.p) \in BulkSyms THEN <<NLs(r.p + 1)>> ELSE <<NLc>>]
   ELSE IF s \in {"ls", "ps"} THEN [rd |-> Fwd(r), v |-> <<r.p + 1>>]
   ELSE [rd |-> r, v |-> <<>>]
+LineBreak1(r) == IF Raw(r.p) \in BulkSyms /\ Sym(r.p) \in {"cr", "lf", "nel", "ls", "ps"}
+                 THEN Assert(FALSE, <<"a single scan_line_break() meets a bulk: not representable", r, inp>>) ELSE LineBreak(r)
 
 \* prefix(3) in ('---', '...') and peek(3) in '\0 \t\r\n\x85  '
 DocSep(q) == /\ \/ (SymS(q) = "-" /\ SymS(q + 1) = "-" /\ SymS(q + 2) = "-")
@@ -258,7 +366,7 @@ PlainSpaces(r) ==
   LET q == RunEnd(r.p, {"sp"})
       r1 == FwdTo(r, q)
   IN  IF Sym(q) \in Brk
-      THEN LET lb == LineBreak(r1) IN
+      THEN LET lb == LineBreak1(r1) IN
            IF DocSep(lb.rd.p) THEN [rd |-> lb.rd, v |-> <<>>, none |-> TRUE, brk |-> TRUE]
            ELSE LET b == PlainBreaks(lb.rd, <<>>) IN
                 IF b.none THEN [rd |-> b.rd, v |-> <<>>, none |-> TRUE, brk |-> TRUE]
@@ -302,29 +410,29 @@ HexEscape(r, start, s, q) ==
       ELSE IF (huge \/ big) /\ FixD1 THEN BadV(r, "escape_range", start, Mk(r))
       ELSE IF huge THEN BoomV(r, "OverflowError: chr() of a code above 2^31")
       ELSE IF big THEN BoomV(r, "ValueError: chr() of a code above 0x10FFFF")
-      ELSE OkV(FwdTo(r, r.p + n), <<Esc(q)>>)
+      ELSE OkV(FwdN(r, r.p + n), <<Esc(q)>>)
 
 FlowNonSpaces(r, dbl, start, acc) ==
   LET q == RunEndNot(r.p, {"'", "dq", "bs", "Z", "sp", "tab"} \cup Brk)
       r1 == FwdTo(r, q)
       acc1 == acc \o Copies(r.p, q)
       ch == Sym(q)
-  IN  IF ~dbl /\ ch = "'" /\ Sym(q + 1) = "'" THEN FlowNonSpaces(Fwd(Fwd(r1)), dbl, start, Append(acc1, q + 1))
-      ELSE IF (dbl /\ ch = "'") \/ (~dbl /\ ch \in {"dq", "bs"}) THEN FlowNonSpaces(Fwd(r1), dbl, start, Append(acc1, q + 1))
+  IN  IF ~dbl /\ ch = "'" /\ Sym(q + 1) = "'" THEN FlowNonSpaces(Fwd1(Fwd1(r1)), dbl, start, Append(acc1, q + 1))
+      ELSE IF (dbl /\ ch = "'") \/ (~dbl /\ ch \in {"dq", "bs"}) THEN FlowNonSpaces(Fwd1(r1), dbl, start, Append(acc1, q + 1))
       ELSE IF dbl /\ ch = "bs" THEN
-        LET r2 == Fwd(r1)
+        LET r2 == Fwd1(r1)
             e == Sym(r2.p)
-        IN  IF e \in EscName THEN FlowNonSpaces(Fwd(r2), dbl, start, Append(acc1, Esc(r2.p + 1)))
+        IN  IF e \in EscName THEN FlowNonSpaces(Fwd1(r2), dbl, start, Append(acc1, Esc(r2.p + 1)))
             ELSE IF e \in {"U8big", "U8huge"} /\ FixD1              \* raised after forward() over the letter U
                  THEN BadV(r2, "escape_range", start, [i |-> r2.i + 1, l |-> r2.l, c |-> r2.c + 1])
             ELSE IF e = "U8big" THEN BoomV(r2, "ValueError: chr() of a code above 0x10FFFF")
             ELSE IF e = "U8huge" THEN BoomV(r2, "OverflowError: chr() of a code above 2^31")
-            ELSE IF e \in EscMacro THEN FlowNonSpaces(Fwd(r2), dbl, start, Append(acc1, Esc(r2.p + 1)))
+            ELSE IF e \in EscMacro THEN FlowNonSpaces(Fwd1(r2), dbl, start, Append(acc1, Esc(r2.p + 1)))
             ELSE IF e \in {"xc", "uc", "Uc"} THEN
-                 LET h == HexEscape(Fwd(r2), start, e, r2.p + 1) IN
+                 LET h == HexEscape(Fwd1(r2), start, e, r2.p + 1) IN
                  IF h.t # "ok" THEN h ELSE FlowNonSpaces(h.rd, dbl, start, acc1 \o h.v)
             ELSE IF e \in Brk THEN
-                 LET fb == FlowBreaks(LineBreak(r2).rd, start, <<>>) IN
+                 LET fb == FlowBreaks(LineBreak1(r2).rd, start, <<>>) IN
                  IF fb.t # "ok" THEN fb ELSE FlowNonSpaces(fb.rd, dbl, start, acc1 \o fb.v)
             ELSE BadV(r2, "unknown_escape", start, Mk(r2))
       ELSE OkV(r1, acc1)
@@ -335,7 +443,7 @@ FlowSpaces(r, start) ==
       ch == Sym(q)
   IN  IF ch = "Z" THEN BadV(r1, "quoted_eof", start, Mk(r1))
       ELSE IF ch \in Brk THEN
-           LET lb == LineBreak(r1)
+           LET lb == LineBreak1(r1)
                fb == FlowBreaks(lb.rd, start, <<>>)
            IN  IF fb.t # "ok" THEN fb
                ELSE OkV(fb.rd, (IF lb.v # <<NLc>> THEN lb.v ELSE IF fb.v = <<>> THEN <<SPc>> ELSE <<>>) \o fb.v)
@@ -351,18 +459,18 @@ FlowLoop(r, dbl, start, quote, acc) ==
 ScanFlowScalar(r0, dbl) ==
   LET start == Mk(r0)
       quote == Sym(r0.p)
-      n == FlowNonSpaces(Fwd(r0), dbl, start, <<>>)
+      n == FlowNonSpaces(Fwd1(r0), dbl, start, <<>>)
   IN  IF n.t # "ok" THEN AsTok(n)
       ELSE LET x == FlowLoop(n.rd, dbl, start, quote, n.v) IN
            IF x.t # "ok" THEN AsTok(x)
-           ELSE LET r9 == Fwd(x.rd) IN Ok(r9, MkTok("Scalar", start, Mk(r9), x.v, <<>>, quote))
+           ELSE LET r9 == Fwd1(x.rd) IN Ok(r9, MkTok("Scalar", start, Mk(r9), x.v, <<>>, quote))
 
 (***************************************************************************)
 (* scan_anchor (ALIAS / ANCHOR)                                            *)
 (***************************************************************************)
 ScanAnchor(r0, kind) ==
   LET start == Mk(r0)
-      r1 == Fwd(r0)
+      r1 == Fwd1(r0)
       q == RunEnd(r1.p, NameCh)
       r2 == FwdTo(r1, q)
   IN  IF q = r1.p THEN Bad(r1, "anchor_name", start, Mk(r1))
@@ -379,11 +487,11 @@ Utf8Ok(cls) == \/ cls = <<>>
                \/ (cls[1] = "P2a" /\ Len(cls) >= 2 /\ cls[2] \in {"P2b", "cont"} /\ Utf8Ok(Tail(Tail(cls))))
 UriEscapes(r, start, m0, items, cls) ==
   LET s == Sym(r.p) IN
-  IF s \in PMacro THEN UriEscapes(Fwd(r), start, m0, Append(items, Uri(r.p + 1)), Append(cls, s))
+  IF s \in PMacro THEN UriEscapes(Fwd1(r), start, m0, Append(items, Uri(r.p + 1)), Append(cls, s))
   ELSE IF s = "%" THEN
-       LET r1 == Fwd(r) IN
+       LET r1 == Fwd1(r) IN
        IF ~(Sym(r1.p) \in Hex /\ Sym(r1.p + 1) \in Hex) THEN BadV(r1, "uri_hex", start, Mk(r1))
-       ELSE UriEscapes(Fwd(Fwd(r1)), start, m0, Append(items, Uri(r.p + 1)),
+       ELSE UriEscapes(Fwd1(Fwd1(r1)), start, m0, Append(items, Uri(r.p + 1)),
                        Append(cls, IF Sym(r1.p) \in {"8", "9", "h", "a"} THEN "cont" ELSE "P1"))
   ELSE IF Utf8Ok(cls) THEN OkV(r, items) ELSE BadV(r, "uri_utf8", start, m0)       \* UnicodeDecodeError is caught
 
@@ -402,7 +510,7 @@ ScanTagUri(r, start) == UriLoop(r, r.p, start, <<>>)
 
 ScanTagHandle(r, start) ==
   IF Sym(r.p) # "!" THEN BadV(r, "handle_bang", start, Mk(r))
-  ELSE IF Sym(r.p + 1) = "sp" THEN OkV(Fwd(r), Copies(r.p, r.p + 1))
+  ELSE IF Sym(r.p + 1) = "sp" THEN OkV(Fwd1(r), Copies(r.p, r.p + 1))
   ELSE LET q == RunEnd(r.p + 1, NameCh) IN
        IF Sym(q) # "!" THEN LET r1 == FwdTo(r, q) IN BadV(r1, "handle_bang", start, Mk(r1))
        ELSE OkV(FwdTo(r, q + 1), Copies(r.p, q + 1))
@@ -416,12 +524,12 @@ ScanTag(r0) ==
       fin(r, h, sfx, hx) == IF Sym(r.p) \notin SpBrkZ THEN Bad(r, "tag_end", start, Mk(r))
                             ELSE Ok(r, MkTok("Tag", start, Mk(r), h, sfx, hx))
   IN  IF ch = "<" THEN
-        LET u == ScanTagUri(Fwd(Fwd(r0)), start) IN
+        LET u == ScanTagUri(Fwd1(Fwd1(r0)), start) IN
         IF u.t # "ok" THEN AsTok(u)
         ELSE IF Sym(u.rd.p) # ">" THEN Bad(u.rd, "tag_gt", start, Mk(u.rd))
-        ELSE fin(Fwd(u.rd), <<>>, u.v, "nohandle")
-      ELSE IF ch \in SpTabBrkZ THEN fin(Fwd(r0), <<>>, <<r0.p + 1>>, "nohandle")
-      ELSE LET h == IF TagLook(r0.p + 1) THEN ScanTagHandle(r0, start) ELSE OkV(Fwd(r0), <<r0.p + 1>>) IN
+        ELSE fin(Fwd1(u.rd), <<>>, u.v, "nohandle")
+      ELSE IF ch \in SpTabBrkZ THEN fin(Fwd1(r0), <<>>, <<r0.p + 1>>, "nohandle")
+      ELSE LET h == IF TagLook(r0.p + 1) THEN ScanTagHandle(r0, start) ELSE OkV(Fwd1(r0), <<r0.p + 1>>) IN
            IF h.t # "ok" THEN AsTok(h)
            ELSE LET u == ScanTagUri(h.rd, start) IN
                 IF u.t # "ok" THEN AsTok(u) ELSE fin(u.rd, h.v, u.v, "handle")
@@ -434,16 +542,16 @@ DirNumber(r, start) ==
   IF Sym(r.p) \notin Digit THEN BadV(r, "dir_digit", start, Mk(r))
   ELSE LET q == RunEnd(r.p, Digit) IN
        IF FixD10 /\ Width(q) - Width(r.p) > 9 THEN BadV(r, "dir_number_long", start, Mk(r))
-       ELSE IF \E j \in r.p .. q - 1 : Sym(j) = "DBIG" THEN BoomV(r, "ValueError: int() of more than 4300 digits")
+       ELSE IF Width(q) - Width(r.p) > 4300 THEN BoomV(r, "ValueError: int() of more than 4300 digits")
        ELSE OkV(FwdTo(r, q), Copies(r.p, q))
 \* scan_directive_ignored_line
 DirIgnored(r, start) ==
   LET r1 == Skip(r, {"sp"})
       r2 == IF Sym(r1.p) = "#" THEN SkipUntil(r1, BrkZ) ELSE r1
-  IN  IF Sym(r2.p) \notin BrkZ THEN BadV(r2, "dir_comment", start, Mk(r2)) ELSE OkV(LineBreak(r2).rd, <<>>)
+  IN  IF Sym(r2.p) \notin BrkZ THEN BadV(r2, "dir_comment", start, Mk(r2)) ELSE OkV(LineBreak1(r2).rd, <<>>)
 ScanDirective(r0) ==
   LET start == Mk(r0)
-      r1 == Fwd(r0)
+      r1 == Fwd1(r0)
       q == RunEnd(r1.p, NameCh)
       r2 == FwdTo(r1, q)
       pm == Sym(r0.p) \in PMacro            \* '%41' at column 0 is the directive '%' followed by the name '41...'
@@ -456,7 +564,7 @@ ScanDirective(r0) ==
         LET ma == DirNumber(Skip(r2, {"sp"}), start) IN
         IF ma.t # "ok" THEN AsTok(ma)
         ELSE IF Sym(ma.rd.p) # "." THEN Bad(ma.rd, "dir_dot", start, Mk(ma.rd))
-        ELSE LET mi == DirNumber(Fwd(ma.rd), start) IN
+        ELSE LET mi == DirNumber(Fwd1(ma.rd), start) IN
              IF mi.t # "ok" THEN AsTok(mi)
              ELSE IF Sym(mi.rd.p) \notin SpBrkZ THEN Bad(mi.rd, "dir_digit_sp", start, Mk(mi.rd))
              ELSE fin(mi.rd, Mk(mi.rd), ma.v, mi.v, "YAML")
@@ -484,22 +592,22 @@ BlockIndicators(r, start) ==
                           THEN [t |-> "err", rd |-> rr, chomp |-> ch, inc |-> inc, e |-> [kind |-> "block_indicator", c |-> start, p |-> Mk(rr)]]
                           ELSE [t |-> "ok", rd |-> rr, chomp |-> ch, inc |-> inc, e |-> NoErr]
   IN  IF s \in {"+", "-"} THEN
-        LET r1 == Fwd(r)
+        LET r1 == Fwd1(r)
             s1 == Sym(r1.p)
             ch == IF s = "+" THEN "keep" ELSE "strip"
-        IN  IF isdig(s1) THEN (IF s1 = "0" THEN zero(r1) ELSE fin(Fwd(r1), ch, IncOf(s1))) ELSE fin(r1, ch, 0)
+        IN  IF isdig(s1) THEN (IF s1 = "0" THEN zero(r1) ELSE fin(Fwd1(r1), ch, IncOf(s1))) ELSE fin(r1, ch, 0)
       ELSE IF isdig(s) THEN
         IF s = "0" THEN zero(r)
-        ELSE LET r1 == Fwd(r)
+        ELSE LET r1 == Fwd1(r)
                  s1 == Sym(r1.p)
-             IN  IF s1 \in {"+", "-"} THEN fin(Fwd(r1), IF s1 = "+" THEN "keep" ELSE "strip", IncOf(s))
+             IN  IF s1 \in {"+", "-"} THEN fin(Fwd1(r1), IF s1 = "+" THEN "keep" ELSE "strip", IncOf(s))
                  ELSE fin(r1, "clip", IncOf(s))
       ELSE fin(r, "clip", 0)
 \* scan_block_scalar_ignored_line
 BlockIgnored(r, start) ==
   LET r1 == Skip(r, {"sp"})
       r2 == IF Sym(r1.p) = "#" THEN SkipUntil(r1, BrkZ) ELSE r1
-  IN  IF Sym(r2.p) \notin BrkZ THEN BadV(r2, "block_comment", start, Mk(r2)) ELSE OkV(LineBreak(r2).rd, <<>>)
+  IN  IF Sym(r2.p) \notin BrkZ THEN BadV(r2, "block_comment", start, Mk(r2)) ELSE OkV(LineBreak1(r2).rd, <<>>)
 RECURSIVE BlockIndentation(_, _, _, _), BlockBreaksLoop(_, _, _, _), SkipIndent(_, _), BlockLoop(_, _, _, _, _, _, _)
 \* scan_block_scalar_indentation -> [rd, v, maxi, endm]
 BlockIndentation(r, acc, maxi, endm) ==
@@ -507,7 +615,10 @@ BlockIndentation(r, acc, maxi, endm) ==
   IF s \in Brk THEN LET lb == LineBreak(r) IN BlockIndentation(lb.rd, acc \o lb.v, maxi, Mk(lb.rd))
   ELSE IF s = "sp" THEN LET r1 == Fwd(r) IN BlockIndentation(r1, acc, Max(maxi, r1.c), endm)
   ELSE [rd |-> r, v |-> acc, maxi |-> maxi, endm |-> endm]
-SkipIndent(r, ind) == IF r.c < ind /\ Sym(r.p) = "sp" THEN SkipIndent(Fwd(r), ind) ELSE r
+\* while self.column < indent and self.peek() == ' ': a bulk of spaces that fits below the indent is crossed, one that does not
+\* would be cut (Fwd1: not representable)
+SkipIndent(r, ind) == IF r.c < ind /\ Sym(r.p) = "sp"
+                      THEN SkipIndent(IF r.c + W(Raw(r.p)) <= ind THEN Fwd(r) ELSE Fwd1(r), ind) ELSE r
 \* scan_block_scalar_breaks -> [rd, v, endm]
 BlockBreaksLoop(r, ind, acc, endm) ==
   IF Sym(r.p) \in Brk THEN LET lb == LineBreak(r) IN BlockBreaksLoop(SkipIndent(lb.rd, ind), ind, acc \o lb.v, Mk(lb.rd))
@@ -520,7 +631,7 @@ BlockLoop(r, ind, folded, chunks, br, endm, lb) ==
            q == RunEndNot(r.p, BrkZ)
            r1 == FwdTo(r, q)
            ch1 == chunks \o br \o Copies(r.p, q)
-           l2 == LineBreak(r1)
+           l2 == LineBreak1(r1)
            b2 == BlockBreaks(l2.rd, ind)
            r2 == b2.rd
        IN  IF r2.c = ind /\ Sym(r2.p) # "Z"
@@ -531,7 +642,7 @@ BlockLoop(r, ind, folded, chunks, br, endm, lb) ==
            ELSE [rd |-> r2, chunks |-> ch1, br |-> b2.v, endm |-> b2.endm, lb |-> l2.v]
 ScanBlockScalar(r0, style, indentNow) ==
   LET start == Mk(r0)
-      hd == BlockIndicators(Fwd(r0), start)
+      hd == BlockIndicators(Fwd1(r0), start)
   IN  IF hd.t # "ok" THEN [t |-> hd.t, rd |-> hd.rd, tok |-> NoTok, e |-> hd.e]
       ELSE LET ig == BlockIgnored(hd.rd, start) IN
       IF ig.t # "ok" THEN AsTok(ig)
@@ -560,7 +671,7 @@ InsertAt(s, k, x) == LET n == Len(s)
                          j == IF k < 0 THEN Max(0, n + k) ELSE IF k > n THEN n ELSE k
                      IN  SubSeq(s, 1, j) \o <<x>> \o SubSeq(s, j + 1, n)
 \* a token made of the next n symbols
-Punct(r, kind, n) == LET r1 == FwdTo(r.rd, r.rd.p + n) IN
+Punct(r, kind, n) == LET r1 == FwdN(r.rd, r.rd.p + n) IN
                      [Push(r, MkTok(kind, Here(r), Mk(r1), <<>>, <<>>, "")) EXCEPT !.rd = r1]
 \* the result of a sub-scanner becomes the state of the scanner
 Absorb(r, x) == IF x.t = "ok" THEN [Push(r, x.tok) EXCEPT !.rd = x.rd]
@@ -619,7 +730,7 @@ NextTokenLoop(r, fl, a) ==
       lb == LineBreak(r2)
   IN  IF lb.v # <<>> THEN NextTokenLoop(lb.rd, fl, IF fl = 0 THEN TRUE ELSE a) ELSE [rd |-> r2, ask |-> a]
 ScanToNextToken(r) ==
-  LET r0 == IF r.rd.i = 0 /\ Sym(r.rd.p) = "bom" THEN Fwd(r.rd) ELSE r.rd
+  LET r0 == IF r.rd.i = 0 /\ Sym(r.rd.p) = "bom" THEN Fwd1(r.rd) ELSE r.rd
       x == NextTokenLoop(r0, r.flow, r.ask)
   IN  [r EXCEPT !.rd = x.rd, !.ask = x.ask]
 
@@ -749,8 +860,13 @@ Apply(r0, nextpc, name) == \E r \in {r0} :
   /\ UNCHANGED <<focus, inp, out, mon>>
 
 \* the environment writes the input, one symbol at a time, then hands it to the reader
-Extend == /\ pc = "grow" /\ Len(inp) < Len(Prefix) + MaxLen
-          /\ \E s \in Alphabet : inp' = Append(inp, s)
+\* (a run symbol is written as its expansion x^a B x^z and counts as one choice; at most one run per input)
+HasRun == \E j \in DOMAIN inp : inp[j] \in BulkSyms \cup UnitSyms
+Extra  == IF \E j \in DOMAIN inp : inp[j] \in BulkSyms
+          THEN Len(Expand(CHOOSE s \in RunSyms : \E j \in DOMAIN inp : inp[j] = RunTable[s].b)) - 1 ELSE 0
+Extend == /\ pc = "grow" /\ Len(inp) - Extra < Len(Prefix) + MaxLen
+          /\ \E s \in Alphabet : /\ s \in RunSyms \cup UnitSyms => ~HasRun
+                                 /\ inp' = inp \o Expand(s)
           /\ UNCHANGED <<focus, pc, rd, done, flow, toks, taken, indent, indents, ask, keys, out, res, err, mon, path>>
 \* Reader.__init__ / check_printable: the whole (small) input is checked before the first token is asked for
 NonPrintables == {j \in 1 .. Len(inp) : inp[j] = "np"}
@@ -840,7 +956,10 @@ RunAll(r, o, m, pth) ==
               TG!TGStep(m, Head(x.r.toks).k), pth)
 Run ==
   /\ pc = "grow" /\ ~Fine
-  /\ IF NonPrintables # {}
+  /\ IF \E j \in DOMAIN inp : inp[j] \in UnitSyms              \* a unit run: generated, not predicted (see the header)
+     THEN /\ res' = "unmodelled"
+          /\ UNCHANGED <<err, rd, done, flow, toks, taken, indent, indents, ask, keys, out, mon, path>>
+     ELSE IF NonPrintables # {}
      THEN /\ res' = "reader_error" /\ err' = ReaderError
           /\ UNCHANGED <<rd, done, flow, toks, taken, indent, indents, ask, keys, out, mon, path>>
      ELSE \E z \in {RunAll(R, <<>>, mon, <<>>)} :
@@ -867,7 +986,10 @@ Spec == Init /\ [][Next]_vars
 (***************************************************************************)
 \* Pos(input, index): line and column obtained by counting, independently of the reader's bookkeeping
 TotalWidth == Width(Len(inp))
-EndsLine(j) == inp[j] \in {"lf", "nel", "ls", "ps"} \/ (inp[j] = "cr" /\ SymS(j) # "lf")
+EndsLine(j) == Cls(inp[j]) \in {"lf", "nel", "ls", "ps"} \/ (Cls(inp[j]) = "cr" /\ SymS(j) # "lf")
+RECURSIVE LinesIn(_)
+LinesIn(q) == IF q = 0 THEN 0 ELSE LinesIn(q - 1) + (IF EndsLine(q) THEN Lines(inp[q]) ELSE 0)   \* breaks in the first q symbols
+\* (a mark never points into a symbol that contains line breaks: the scanner's marks are taken at symbol borders)
 PosOk(m) ==
   /\ 0 <= m.i /\ m.i <= TotalWidth
   /\ \E q \in 0 .. Len(inp) :
@@ -875,7 +997,7 @@ PosOk(m) ==
        /\ LET brks == {j \in 1 .. q : EndsLine(j)}
               from == IF brks = {} THEN 0 ELSE CHOOSE j \in brks : \A k \in brks : k <= j
               boms == Cardinality({j \in from + 1 .. q : inp[j] = "bom"})
-          IN  m.l = Cardinality(brks) /\ m.c = (m.i - Width(from)) - boms
+          IN  m.l = LinesIn(q) /\ m.c = (m.i - Width(from)) - boms
 
 \* never anything but a YAML error (ScannerError / ReaderError), never a Python exception of another type
 H_YamlErrorOnly == res # "crash"
